@@ -25,8 +25,9 @@
     * `Encoder.encodeStructure` writes a String whose text parses as a JSON array or object not as a
       string but as that array / object (recursively), re-encoded;
     * `Integer.Encode` goes through float64.
-  Not modelled: nested column paths (`a.b`), the escape type detected by `Unescape`, colours,
-  code points U+E002…U+E007 outside strings (goyacc's private token numbers), transcoding.
+  Column names as paths into nested objects (`a.b`): Csvq.Model.JsonPath; transcoding: Csvq.Model.Encoding.
+  Not modelled: the escape type detected by `Unescape`, colours, code points U+E002…U+E007 outside strings
+  (goyacc's private token numbers).
 -/
 import Csvq.Model.Csv
 namespace Csvq.Json
